@@ -94,11 +94,11 @@ Definition as_isize (n : num) : option Z :=
   | _ => None
   end.
 
-(** [Num::as_pos_usize]: sign (true = non-negative) and magnitude, if the magnitude fits [usize] *)
+(** [Num::as_pos_usize]: sign (true = non-negative) and magnitude, saturated at [usize::MAX] *)
 Definition as_pos_usize (n : num) : option (bool * Z) :=
   match n with
   | Int i => Some (0 <=? i, Z.abs i)
-  | Big z => if Z.abs z <=? usize_max then Some (0 <=? z, Z.abs z) else None
+  | Big z => Some (0 <=? z, Z.min (Z.abs z) usize_max)
   | _ => None
   end.
 
